@@ -1420,6 +1420,32 @@ func c20SilentPeer(r *gen.Rng, o *out.W) {
 	o.Sample(fmt.Sprintf("a peer pipelines %d requests and stops reading", len(ps)))
 }
 
+// a subscriber that reads slowly (C06): its writes are held, QoS 0 and QoS 1 publishes pile up beyond its session
+// queue — the publisher waits for room — and when it reads again every message arrives, once.  Monitors only (a publish
+// waiting on another online client's queue is outside the model).
+func c06SlowReader(r *gen.Rng, o *out.W) {
+	nextNoModel = true
+	q := 2 + r.Intn(3)
+	w := newWorld(o, "C06", 10, q, nil)
+	w.concurrent = false
+	s := w.Conn()
+	w.Connect(s, "S", r.Bool(), nil, 0, "", "")
+	w.Subscribe(s, packet.Subscription{Topic: "x/#", QOS: packet.QOS(r.Intn(2))})
+	w.mustSurvive[s] = true
+	p := w.Conn()
+	w.Connect(p, "P", true, nil, 0, "", "")
+	w.HoldSends(s)
+	for i, n := 0, q+3+r.Intn(4); i < n; i++ {
+		w.Publish(p, "x/y", packet.QOS(r.Intn(2)), false, false)
+	}
+	w.ReleaseSends(s)
+	w.AckAll(s)
+	w.Send(p, &packet.Pingreq{})
+	w.finish()
+	o.Distinct(fmt.Sprintf("slow reader q=%d", q))
+	o.Sample(fmt.Sprintf("slow reader, queue %d, %d lines", q, len(w.trace)))
+}
+
 // the backend fails right after the client was accepted (C20): Restore returns an error when the CONNACK has already
 // been sent — the connection is closed, and never gets a second CONNACK.  Monitors only (the model has no failing
 // backend calls).
@@ -1691,6 +1717,11 @@ func TestHarness(t *testing.T) {
 			return profile{window: []int{1, 2, 3, 10, 10}[r.Intn(5)], queue: 100, clients: 1 + r.Intn(5), steps: 30 + r.Intn(40), wSub: 6, wUnsub: 3, wPub: 10, wAck: []int{2, 7}[r.Intn(2)], wPing: 1, qos: all, multiFilter: true}
 		})
 		sc("C06 backlog", func(r *gen.Rng, o *out.W) { c06Backlog(r, o, "C06") })
+		if *fShard < 4 {
+			for i := 0; i < 4; i++ {
+				runCase(t, o, "C06 slow reader", func() { c06SlowReader(r, o) })
+			}
+		}
 		sc("C06 concurrent storm", func(r *gen.Rng, o *out.W) { concStorm(r, o, "C06") })
 	case "C07":
 		sc("C07 publisher script", c07Script)
